@@ -469,6 +469,9 @@ func c34History(r *Rec, prop string, h int, nBlocks int) {
 						ds = append(ds, d)
 					}
 				}
+				if r.Rng.Intn(2) == 0 {
+					ds = []string{"ukex", "xeth"} // one denomination that compounds, one that never can
+				}
 				ops = append(ops, c34Op{"set-compound", s, func(ctx sdk.Context) error {
 					_, err := e.ms.SetCompoundInfo(sdk.WrapSDKContext(ctx), &mstypes.MsgSetCompoundInfo{Sender: A[s].String(), AllDenom: all, CompoundDenoms: ds})
 					return err
@@ -502,6 +505,12 @@ func c34History(r *Rec, prop string, h int, nBlocks int) {
 						app.DistrKeeper.SetValidatorVote(ctx, cons, ctx.BlockHeight()-j)
 					}
 					app.DistrKeeper.AllocateTokens(ctx, 0, 0, cons, nil)
+					if os.Getenv("C34_DEBUG") != "" {
+						for _, d := range app.MultiStakingKeeper.GetPoolDelegators(ctx, pool.Id) {
+							ci := app.MultiStakingKeeper.GetCompoundInfoByAddress(ctx, d.String())
+							fmt.Printf("DBG pool %d h=%d delegator %s compound all=%v %v last=%d rewards %s\n", pool.Id, ctx.BlockHeight(), d.String()[:12], ci.AllDenom, ci.CompoundDenoms, ci.LastExecBlock, app.MultiStakingKeeper.GetDelegatorRewards(ctx, d))
+						}
+					}
 					return nil
 				}})
 			case x < 78:
